@@ -193,6 +193,10 @@ def r_instances(tier):
         out.append(('width', 'line2', NAMED['line2'], dict(fam='simple', T=2, ne=False, sym_maxdist=True, sym_init=False, sym_minprob=False), (1, 2)))
         out.append(('width', 'line2', NAMED['line2'], dict(fam='simple', T=3, ne=False, sym_maxdist=False, sym_init=False, sym_minprob=False), (1, 2)))
         out.append(('width', 'oneway3', NAMED['oneway3'], dict(fam='simple', T=2, ne=False, sym_maxdist=True, sym_init=False, sym_minprob=False), (1, 2)))
+        SIDE = {"A": ["B"], "S": ["B"], "B": ["C"], "C": ["D"], "D": []}
+        for fam in ('simple', 'dist'):
+            out.append(('width', 'side', SIDE, dict(fam=fam, T=3, ne=False, sym_maxdist=False, sym_init=False, sym_minprob=False), (1, 4)))
+            out.append(('width', 'oneway3', NAMED['oneway3'], dict(fam=fam, T=3, ne=False, sym_maxdist=False, sym_init=False, sym_minprob=False), (1, 2)))
         out.append(('width', 'tri', NAMED['tri'], dict(fam='simple', T=2, ne=False, sym_maxdist=False, sym_init=False, sym_minprob=False), (1, 2, 3)))
     else:
         for name, g in library(3, named=('fork',)):
@@ -211,112 +215,62 @@ def r_instances(tier):
     return out
 
 
-def run_width(inst):
-    _, gname, g, kw, widths = inst[:5]
-    cfg = Cfg(**kw)
-    AbsMap = make_absmap_class()
-    TableMap = make_tablemap_class()
-    shims.install()
-    name = f"width {gname} {cfg.describe()} widths={widths}"
-    nstates = len([(u, v) for u in g for v in g[u] if u != v]) + (len(g) if not cfg.only_edges else 0)
+def width_ops(T, widths):
+    return [('match', T), ('new', dict(width=widths[0])), ('match', T)] + [('widen', w) for w in widths[1:]]
 
-    def do_runs(eng, mapcls, *margs):
-        path = obs_path(cfg.T)
-        res = []
-        # unpruned reference
-        mp0 = mapcls(g, *margs)
-        m0 = make_matcher(eng, mp0, cfg)
-        st, idx = m0.match(path)
-        res.append(dict(kind='unpruned', W=None, states=st, idx=idx, score=(m0.lattice_best[-1].logprob if st else None)))
-        cfgw = Cfg(**dict(kw, width=widths[0]))
-        mp1 = mapcls(g, *margs)
-        m1 = make_matcher(eng, mp1, cfgw)
-        st, idx = m1.match(path)
-        res.append(dict(kind='pruned', W=widths[0], states=st, idx=idx, score=(m1.lattice_best[-1].logprob if st else None)))
-        for w in widths[1:]:
-            st, idx = m1.increase_max_lattice_width(w)
-            res.append(dict(kind='widened', W=w, states=st, idx=idx, score=(m1.lattice_best[-1].logprob if st else None)))
-        return res, mp0
 
-    def scenario():
-        eng = E.get_engine()
-        res, mp = do_runs(eng, AbsMap)
-        return dict(res=res, mp=mp)
+def width_claims(ctx):
+    """relate the unpruned reference run (first matcher) with the pruned / widened runs (second matcher)."""
+    cfg = ctx['cfg']
+    T = cfg.T
+    rs = ctx['results']
+    ref = rs[0]
+    nstates = len([(u, v) for u in ctx['g'] for v in ctx['g'][u] if u != v]) + (len(ctx['g']) if not cfg.only_edges else 0)
+    out = []
+    if any(r['states'] is None for r in rs):
+        return [('all_runs_return_lists', False)]
 
-    def relate(res, z=True):
-        """List of (name, formula-or-bool) relating the runs; z=True builds z3 terms, else python floats."""
-        def ge(a, b):   # a >= b - tol
-            return (E.lift(a) >= E.lift(b) - TOL) if z else (a >= b - 1e-7 * max(1.0, abs(b)))
-        out = []
-        T = cfg.T
-        ref = res[0]
-        prev = None
-        for r in res[1:]:
-            nm = f"{r['kind']}_W{r['W']}"
-            ok_idx = (len(r['states'] or []) == 0 and True) or r['idx'] <= ref['idx'] or not ref['states']
-            # pruned never longer than unpruned
-            longer = bool(r['states']) and (not ref['states'] or r['idx'] > ref['idx'])
-            out.append((f"{nm}_not_longer_than_unpruned", not longer))
-            if r['states'] and ref['states'] and r['idx'] == T - 1 and ref['idx'] == T - 1:
-                out.append((f"{nm}_not_more_probable_than_unpruned", ge(ref['score'], r['score'])))
-            if r['W'] >= nstates:
-                same = bool(r['states']) == bool(ref['states']) and r['idx'] == ref['idx']
-                out.append((f"{nm}_coincides_when_W_covers_all", same))
-                if same and r['states']:
-                    out.append((f"{nm}_same_score_when_W_covers_all", ge(r['score'], ref['score'])))
-            if prev is not None:
-                shorter = bool(prev['states']) and (not r['states'] or r['idx'] < prev['idx'])
-                out.append((f"{nm}_widening_never_shortens", not shorter))
-                if prev['states'] and r['states'] and prev['idx'] == T - 1 and r['idx'] == T - 1:
-                    out.append((f"{nm}_widening_never_lowers_probability", ge(r['score'], prev['score'])))
-            prev = r
-        return out
-
-    def claims(eng, v):
-        cl = []
-        for nm, f in relate(v['res'], z=True):
-            cl.append((nm, z3.BoolVal(f) if isinstance(f, bool) else f))
-        return cl
-
-    def confirm(eng, model, v, cname):
-        tab = table_from_model(model, v['mp'].memo)
-        thr = threshold_values(model, cfg)
-        with shims.concrete():
-            class M(TableMap):
-                pass
-            try:
-                # concrete thresholds are installed by make_matcher(None,..) + concrete_thresholds inside a wrapper
-                import symx.matchlib as ml
-                orig = ml.install_thresholds
-                ml.install_thresholds = lambda eng_, mt, cfg_: concrete_thresholds(mt, cfg_, thr)
-                try:
-                    res, _ = do_runs(None, TableMap, tab)
-                finally:
-                    ml.install_thresholds = orig
-            except Exception as e:
-                return dict(desc=f"raised {type(e).__name__}: {e}", table=tab, thresholds=thr, graph=g, cfg=kw, widths=list(widths), kind='width')
-        bad = [nm for nm, f in relate(res, z=False) if not f]
-        if bad:
-            summ = [(r['kind'], r['W'], repr(r['states']), r['idx'], None if r['score'] is None else float(r['score'])) for r in res]
-            return dict(desc=f"violated {bad}: runs={summ}", table=tab, thresholds=thr, graph=g, cfg=kw, widths=list(widths), kind='width')
-        return None
-
-    def witness(eng, v):
-        res = v['res']
-        tags = []
-        if res[1]['states'] and res[0]['states'] and res[1]['idx'] < res[0]['idx']:
-            tags.append('pruned_run_shorter')
-        if any(r['kind'] == 'widened' and r['states'] and res[1]['states'] and r['idx'] > res[1]['idx'] for r in res):
-            tags.append('widening_extended_match')
-        if res[0]['states'] and res[0]['idx'] == cfg.T - 1:
-            tags.append('complete')
-        return tags
-
-    out = runner.explore(name, runner.lra_engine(10000) if cfg.fam != 'dist' else runner.nra_engine(10000), scenario, claims, confirm=confirm, witness=witness,
-                         budget_s=inst[5] if len(inst) > 5 else None,
-                         sample_fmt=lambda v: [(r['kind'], r['W'], repr(r['states']), r['idx']) for r in v['res']])
-    shims.uninstall()
+    def ge(a, b):
+        return E.lift(a) >= E.lift(b) - TOL
+    prev = None
+    for r in rs[1:]:
+        W = r['op'][1] if r['op'][0] == 'widen' else [o[1]['width'] for o in ctx['ops'] if o[0] == 'new'][0]
+        nm = f"{'pruned' if r['op'][0] == 'match' else 'widened'}_W{W}"
+        longer = bool(r['states']) and (not ref['states'] or r['idx'] > ref['idx'])
+        out.append((f"{nm}_not_longer_than_unpruned", not longer))
+        if r['states'] and ref['states'] and r['idx'] == T - 1 and ref['idx'] == T - 1:
+            out.append((f"{nm}_not_more_probable_than_unpruned", ge(ref['score'], r['score'])))
+        if W >= nstates:
+            same = bool(r['states']) == bool(ref['states']) and r['idx'] == ref['idx']
+            out.append((f"{nm}_coincides_when_W_covers_all", same))
+            if same and r['states']:
+                out.append((f"{nm}_same_score_when_W_covers_all", ge(r['score'], ref['score'])))
+        if prev is not None:
+            shorter = bool(prev['states']) and (not r['states'] or r['idx'] < prev['idx'])
+            out.append((f"{nm}_widening_never_shortens", not shorter))
+            if prev['states'] and r['states'] and prev['idx'] == T - 1 and r['idx'] == T - 1:
+                out.append((f"{nm}_widening_never_lowers_probability", ge(r['score'], prev['score'])))
+        prev = r
     return out
+
+
+def width_witness(ctx):
+    rs = ctx['results']
+    tags = []
+    if len(rs) > 1 and rs[1]['states'] and rs[0]['states'] and rs[1]['idx'] < rs[0]['idx']:
+        tags.append('pruned_run_shorter')
+    if any(r['op'][0] == 'widen' and r['states'] and rs[1]['states'] and r['idx'] > rs[1]['idx'] for r in rs):
+        tags.append('widening_extended_match')
+    if rs[0]['states'] and rs[0]['idx'] == ctx['cfg'].T - 1:
+        tags.append('complete')
+    return tags
+
+
+def run_width(inst):
+    from symx import gabs
+    _, gname, g, kw, widths = inst[:5]
+    ginst = (f"width {gname} widths={widths}", g, kw, width_ops(kw['T'], widths), {}) + tuple(inst[5:6])
+    return gabs.run(ginst, width_claims, width_witness)
 
 
 def run_instance(inst):
@@ -378,5 +332,8 @@ def replay_file(path):
         bad = spec_violation(d['scores'], d['stop'], d['delayed'], d['W'], d['expand_upto'], d['prune_thr'], [m.delayed for m in ms], ret)
         print(bad or "consistent")
         return 1 if bad else 0
+    if d.get('kind') == 'gabs':
+        from symx import gabs
+        return gabs.replay(path, width_claims)
     print(d['observed'])
     return 1
